@@ -1,11 +1,26 @@
 package main
 
-// Facts for C08 (DKV checkpoint / restore). Each fact is 1 when the statement the model relies on is present
-// in the source in the expected place, 0 otherwise; Props/C08.lean `code_shape` is re-checked against them.
+// Facts for C08 (DKV checkpoint / restore); Props/C08.lean `code_shape` is re-checked against them.
 //
-//	c08CaptureUnderLock   DB.Checkpoint: `db.wal = db.wal.Rotate(db.fs)` and `db.checkpoints.Add(ckptID, db.sstables,
-//	                      prevWAL, db.seqNum)` both between `db.mu.Lock()` and `db.mu.Unlock()` (one atomic `checkpoint` action)
-//	c08SaveWalThenDoc     the asynchronous part saves the WAL before the checkpoint list (`saveWal` then `saveDoc`)
+// HARD facts (locking / ordering of side effects: the trace validation cannot observe a lock, so these stay proof
+// obligations). They are recognised by structure — which calls happen between Lock and Unlock of the same mutex
+// expression and in which order — independent of local variable names, comments and helper methods of the same
+// file (calls to them are followed). Value 1 = the structure is there, 0 = it is not.
+//
+//	c08CaptureUnderLock   DB.Checkpoint: the WAL `Rotate` (assigned back to the db's writer field) and the
+//	                      checkpoint list's `Add` of the previous writer both happen inside one Lock…Unlock section
+//	                      of the same mutex (one atomic `checkpoint` action)
+//	c08SaveWalThenDoc     DB.Checkpoint: the previous writer's `Save()` happens before the checkpoint list's `Save(fs)`
+//	                      (`saveWal` then `saveDoc`), both after the lock section
+//	c08SaveUnderListLock  CheckpointList.Save: Lock + deferred Unlock of one mutex are its first statements, no other
+//	                      lock operation occurs, and the documents are collected (`Document()`), the file is written
+//	                      (`Save()`), the pending WALs are destroyed (`Destroy()`) in that order inside it (the model's
+//	                      `saveList` is one atomic step: overlapping saves serialise)
+//
+// OBSERVED facts (their whole content is what the C08 traces compare on the real code). When the source no longer
+// has the recognised text the fact is reported as a problem with the last good value kept, and
+// tools/gofacts/fallbacks.json names C08 as the correspondence that then establishes (or refutes, with a replay) it:
+//
 //	c08AfterIsLatest      CheckpointList.Add: the WAL handle starts after `ll.LatestSeqNum`
 //	c08StartSeqFromLevels DB.Start: `db.seqNum = latestCP.Levels.LatestSeqNum`
 //	c08StartSkipsTableIDs DB.Start: `db.tableWriter.SkipTo(latestCP.NextTableID())` (repair D28)
@@ -13,9 +28,6 @@ package main
 //	c08FlushTruncates     flush commit: `db.wal.Truncate(db.sstables.LatestSeqNum)` under the lock, after the level swap
 //	c08EndSeqIsMax        writeEntry: `t.endSeqNum = max(t.endSeqNum, entry.SeqNum())` (repair D6)
 //	c08RotateKeepsMarks   wal.Writer.Rotate copies `latestSeqNum` of carried segments (repair D27)
-//	c08SaveUnderListLock  CheckpointList.Save: `cl.mu.Lock(); defer cl.mu.Unlock()` are its first statements and the
-//	                      document is collected, written (`file.Save()`) and the pending WALs destroyed in that one
-//	                      critical section (the model's `saveList` is one atomic step: overlapping saves serialise)
 //	c08RetainKeepsNewer   RetainOnly keeps `idsSet.Has(cp.ID) || cp.ID > newestRetainedID` (the model's `keeps`)
 
 import (
@@ -34,27 +46,6 @@ func c08Src(n ast.Node) string {
 	return strings.Join(strings.Fields(b.String()), " ")
 }
 
-// c08Stmts returns the rendered top-level statements of a function body.
-func c08Stmts(fn *ast.FuncDecl) []string {
-	var out []string
-	if fn == nil || fn.Body == nil {
-		return out
-	}
-	for _, s := range fn.Body.List {
-		out = append(out, c08Src(s))
-	}
-	return out
-}
-
-func c08Index(stmts []string, want string) int {
-	for i, s := range stmts {
-		if s == want {
-			return i
-		}
-	}
-	return -1
-}
-
 func c08Bool(b bool) uint64 {
 	if b {
 		return 1
@@ -62,70 +53,251 @@ func c08Bool(b bool) uint64 {
 	return 0
 }
 
+// c08Event is one call in evaluation-relevant source order.
+type c08Event struct {
+	name  string // method / function name
+	recv  string // printed receiver expression ("" for plain functions)
+	nargs int
+	args  []string
+	defer_ bool
+	inLit  bool   // inside a function literal (runs later / asynchronously)
+	assign string // printed left-hand side when the call is the sole right-hand side of an assignment
+}
+
+// c08Events linearises the calls of a function body in source order, following calls to methods that are declared
+// in the same file on the same receiver type (helper extraction), two levels deep.
+func c08Events(file *ast.File, fn *ast.FuncDecl, depth int) []c08Event {
+	var out []c08Event
+	if fn == nil || fn.Body == nil {
+		return out
+	}
+	recvType := ""
+	if fn.Recv != nil && len(fn.Recv.List) == 1 {
+		recvType = strings.TrimPrefix(c08Src(fn.Recv.List[0].Type), "*")
+	}
+	recvName := ""
+	if fn.Recv != nil && len(fn.Recv.List) == 1 && len(fn.Recv.List[0].Names) == 1 {
+		recvName = fn.Recv.List[0].Names[0].Name
+	}
+	assigned := map[*ast.CallExpr]string{}
+	deferred := map[*ast.CallExpr]bool{}
+	var walk func(n ast.Node, inLit bool)
+	walk = func(n ast.Node, inLit bool) {
+		ast.Inspect(n, func(x ast.Node) bool {
+			switch v := x.(type) {
+			case *ast.FuncLit:
+				if v != n {
+					walk(v.Body, true)
+					return false
+				}
+			case *ast.AssignStmt:
+				if len(v.Lhs) == 1 && len(v.Rhs) == 1 {
+					if c, ok := v.Rhs[0].(*ast.CallExpr); ok {
+						assigned[c] = c08Src(v.Lhs[0])
+					}
+				}
+			case *ast.DeferStmt:
+				deferred[v.Call] = true
+			case *ast.CallExpr:
+				ev := c08Event{nargs: len(v.Args), inLit: inLit, defer_: deferred[v], assign: assigned[v]}
+				for _, a := range v.Args {
+					ev.args = append(ev.args, c08Src(a))
+				}
+				switch f := v.Fun.(type) {
+				case *ast.SelectorExpr:
+					ev.name, ev.recv = f.Sel.Name, c08Src(f.X)
+				case *ast.Ident:
+					ev.name = f.Name
+				default:
+					return true
+				}
+				// follow helper methods of the same receiver declared in this file
+				if depth > 0 && recvName != "" && ev.recv == recvName {
+					if h := findFunc(file, recvType, ev.name); h != nil && h != fn {
+						sub := c08Events(file, h, depth-1)
+						for i := range sub {
+							sub[i].inLit = sub[i].inLit || inLit
+							// the helper's receiver is this receiver
+							if h.Recv != nil && len(h.Recv.List[0].Names) == 1 {
+								hn := h.Recv.List[0].Names[0].Name
+								if sub[i].recv == hn || strings.HasPrefix(sub[i].recv, hn+".") {
+									sub[i].recv = recvName + strings.TrimPrefix(sub[i].recv, hn)
+								}
+							}
+						}
+						out = append(out, sub...)
+						return true
+					}
+				}
+				out = append(out, ev)
+			}
+			return true
+		})
+	}
+	walk(fn.Body, false)
+	return out
+}
+
+func c08Find(evs []c08Event, from int, pred func(c08Event) bool) int {
+	for i := from; i < len(evs); i++ {
+		if pred(evs[i]) {
+			return i
+		}
+	}
+	return -1
+}
+
+// c08CheckpointShape: (capture under one lock section, WAL saved before the document).
+func c08CheckpointShape(file *ast.File) (capture, order bool) {
+	fn := findFunc(file, "DB", "Checkpoint")
+	if fn == nil || fn.Body == nil {
+		return false, false
+	}
+	evs := c08Events(file, fn, 2)
+	// the variable that keeps the writer being sealed: `<v> := <recv>.<field>` before the Rotate whose result is
+	// assigned back to the same `<recv>.<field>`
+	rot := c08Find(evs, 0, func(e c08Event) bool { return e.name == "Rotate" && e.assign != "" && e.assign == e.recv })
+	if rot < 0 {
+		return false, false
+	}
+	walField := evs[rot].recv
+	prevVar := ""
+	ast.Inspect(fn.Body, func(x ast.Node) bool {
+		if a, ok := x.(*ast.AssignStmt); ok && len(a.Lhs) == 1 && len(a.Rhs) == 1 && c08Src(a.Rhs[0]) == walField {
+			if id, ok := a.Lhs[0].(*ast.Ident); ok && prevVar == "" {
+				prevVar = id.Name
+			}
+		}
+		return true
+	})
+	if prevVar == "" {
+		return false, false
+	}
+	lock := c08Find(evs, 0, func(e c08Event) bool { return e.name == "Lock" && !e.inLit })
+	if lock < 0 || lock > rot {
+		return false, false
+	}
+	mu := evs[lock].recv
+	unlock := c08Find(evs, lock+1, func(e c08Event) bool { return e.name == "Unlock" && e.recv == mu && !e.inLit })
+	if unlock < 0 {
+		return false, false
+	}
+	end := unlock
+	if evs[unlock].defer_ {
+		end = len(evs) // held until the function returns
+	}
+	add := c08Find(evs, 0, func(e c08Event) bool {
+		if e.name != "Add" || e.inLit {
+			return false
+		}
+		for _, a := range e.args {
+			if a == prevVar {
+				return true
+			}
+		}
+		return false
+	})
+	// no second lock section of that mutex in between, everything in the synchronous part
+	relock := c08Find(evs, lock+1, func(e c08Event) bool { return e.name == "Lock" && e.recv == mu && !e.inLit })
+	capture = add > lock && add < end && rot > lock && rot < end && !evs[rot].inLit && (relock < 0 || relock > end)
+	// the previous writer's Save() before the list's Save(fs); both after the lock section
+	walSave := c08Find(evs, 0, func(e c08Event) bool { return e.name == "Save" && e.recv == prevVar })
+	docSave := c08Find(evs, 0, func(e c08Event) bool { return e.name == "Save" && e.recv != prevVar && e.nargs == 1 })
+	order = walSave >= 0 && docSave > walSave && (evs[unlock].defer_ || walSave > unlock)
+	return capture, order
+}
+
+// c08SaveShape: CheckpointList.Save is one critical section of the list mutex.
+func c08SaveShape(file *ast.File) bool {
+	fn := findFunc(file, "CheckpointList", "Save")
+	if fn == nil || fn.Body == nil || len(fn.Body.List) < 2 {
+		return false
+	}
+	// first two statements: <mu>.Lock() ; defer <mu>.Unlock()
+	first, ok1 := fn.Body.List[0].(*ast.ExprStmt)
+	second, ok2 := fn.Body.List[1].(*ast.DeferStmt)
+	if !ok1 || !ok2 {
+		return false
+	}
+	c1, ok := first.X.(*ast.CallExpr)
+	if !ok {
+		return false
+	}
+	s1, ok1 := c1.Fun.(*ast.SelectorExpr)
+	s2, ok2 := second.Call.Fun.(*ast.SelectorExpr)
+	if !ok1 || !ok2 || s1.Sel.Name != "Lock" || s2.Sel.Name != "Unlock" || c08Src(s1.X) != c08Src(s2.X) {
+		return false
+	}
+	evs := c08Events(file, fn, 2)
+	locks := 0
+	for _, e := range evs {
+		if e.name == "Lock" || e.name == "Unlock" || e.name == "RLock" || e.name == "RUnlock" || e.name == "TryLock" {
+			locks++
+		}
+	}
+	doc := c08Find(evs, 0, func(e c08Event) bool { return e.name == "Document" && e.nargs == 0 })
+	write := c08Find(evs, 0, func(e c08Event) bool { return e.name == "Save" && e.nargs == 0 })
+	destroy := c08Find(evs, 0, func(e c08Event) bool { return e.name == "Destroy" && e.nargs == 0 })
+	anyLit := false
+	for _, e := range evs {
+		if (e.name == "Save" || e.name == "Destroy" || e.name == "Document") && e.inLit {
+			anyLit = true // deferred to a closure: not provably inside the section
+		}
+	}
+	return locks == 2 && doc >= 0 && doc < write && write < destroy && !anyLit
+}
+
+// c08Observed reports an observed fact: 1 when the text is there, otherwise a problem (last good value kept).
+func c08Observed(fc *facts, name string, found bool, what string) {
+	fc.set(name, 1, found, what)
+}
+
+func c08FnSrc(f *ast.File, recv, name string) string {
+	if f == nil {
+		return ""
+	}
+	if fn := findFunc(f, recv, name); fn != nil {
+		return c08Src(fn)
+	}
+	return ""
+}
+
 func c08Facts(fc *facts) {
 	db := parseFile("dkv/db.go")
-	ck := c08Stmts(findFunc(db, "DB", "Checkpoint"))
-	lock, unlock := c08Index(ck, "db.mu.Lock()"), c08Index(ck, "db.mu.Unlock()")
-	rot := c08Index(ck, "db.wal = db.wal.Rotate(db.fs)")
-	add := c08Index(ck, "db.checkpoints.Add(ckptID, db.sstables, prevWAL, db.seqNum)")
-	prev := c08Index(ck, "prevWAL := db.wal")
-	fc.set("c08CaptureUnderLock", c08Bool(lock >= 0 && lock < prev && prev < rot && rot < unlock && prev < add && add < unlock), true, "")
-
-	whole := ""
-	if fn := findFunc(db, "DB", "Checkpoint"); fn != nil {
-		whole = c08Src(fn)
-	}
-	iw, id := strings.Index(whole, "prevWAL.Save()"), strings.Index(whole, "db.checkpoints.Save(db.fs)")
-	fc.set("c08SaveWalThenDoc", c08Bool(iw >= 0 && id > iw), true, "")
-
-	start := ""
-	if fn := findFunc(db, "DB", "Start"); fn != nil {
-		start = c08Src(fn)
-	}
-	fc.set("c08StartSeqFromLevels", c08Bool(strings.Contains(start, "db.seqNum = latestCP.Levels.LatestSeqNum")), true, "")
-	fc.set("c08StartSkipsTableIDs", c08Bool(strings.Contains(start, "db.tableWriter.SkipTo(latestCP.NextTableID())")), true, "")
-	fc.set("c08StartNextWALID", c08Bool(strings.Contains(start, "wal.NewWriter(db.fs, latestCP.NextWALID(), db.maxWALSize)")), true, "")
-
-	rm := ""
-	if fn := findFunc(db, "DB", "rotateMemtable"); fn != nil {
-		rm = c08Src(fn)
-	}
-	a := strings.Index(rm, "db.sstables = db.sstables.NewWithChangeSet(cs) db.mtables.Dequeue(sealedTables) db.wal.Truncate(db.sstables.LatestSeqNum) db.mu.Unlock()")
-	fc.set("c08FlushTruncates", c08Bool(a >= 0), true, "")
+	capture, order := c08CheckpointShape(db)
+	fc.set("c08CaptureUnderLock", c08Bool(capture), true, "")
+	fc.set("c08SaveWalThenDoc", c08Bool(order), true, "")
 
 	cl := parseFile("dkv/recovery/checkpoint_list.go")
-	addSrc := ""
-	if fn := findFunc(cl, "CheckpointList", "Add"); fn != nil {
-		addSrc = c08Src(fn)
-	}
-	fc.set("c08AfterIsLatest", c08Bool(strings.Contains(addSrc, "w.Handle(ll.LatestSeqNum)")), true, "")
+	fc.set("c08SaveUnderListLock", c08Bool(c08SaveShape(cl)), true, "")
 
-	sv := c08Stmts(findFunc(cl, "CheckpointList", "Save"))
-	svSrc := strings.Join(sv, " ; ")
-	iCollect, iWrite := strings.Index(svSrc, "ckpt.Document()"), strings.Index(svSrc, "file.Save()")
-	iDestroy, iClear := strings.Index(svSrc, "cp.Destroy()"), strings.Index(svSrc, "cl.checkpointsPendingRemoval = nil")
-	fc.set("c08SaveUnderListLock", c08Bool(len(sv) >= 2 && sv[0] == "cl.mu.Lock()" && sv[1] == "defer cl.mu.Unlock()" &&
-		strings.Count(svSrc, "cl.mu.") == 2 && iCollect > 0 && iCollect < iWrite && iWrite < iDestroy && iDestroy < iClear), true, "")
-	ro2 := ""
-	if fn := findFunc(cl, "CheckpointList", "RetainOnly"); fn != nil {
-		ro2 = c08Src(fn)
-	}
-	fc.set("c08RetainKeepsNewer", c08Bool(strings.Contains(ro2, "if idsSet.Has(cp.ID) || cp.ID > newestRetainedID {") &&
-		strings.Contains(ro2, "newestRetainedID = max(newestRetainedID, id)")), true, "")
+	start := c08FnSrc(db, "DB", "Start")
+	c08Observed(fc, "c08StartSeqFromLevels", strings.Contains(start, "db.seqNum = latestCP.Levels.LatestSeqNum"),
+		"DB.Start: db.seqNum = latestCP.Levels.LatestSeqNum")
+	c08Observed(fc, "c08StartSkipsTableIDs", strings.Contains(start, "db.tableWriter.SkipTo(latestCP.NextTableID())"),
+		"DB.Start: db.tableWriter.SkipTo(latestCP.NextTableID())")
+	c08Observed(fc, "c08StartNextWALID", strings.Contains(start, "wal.NewWriter(db.fs, latestCP.NextWALID(), db.maxWALSize)"),
+		"DB.Start: wal.NewWriter(db.fs, latestCP.NextWALID(), db.maxWALSize)")
+
+	rm := c08FnSrc(db, "DB", "rotateMemtable")
+	c08Observed(fc, "c08FlushTruncates", strings.Contains(rm, "db.sstables = db.sstables.NewWithChangeSet(cs) db.mtables.Dequeue(sealedTables) db.wal.Truncate(db.sstables.LatestSeqNum) db.mu.Unlock()"),
+		"flush commit: level swap, Dequeue, db.wal.Truncate(db.sstables.LatestSeqNum) in one lock section")
+
+	c08Observed(fc, "c08AfterIsLatest", strings.Contains(c08FnSrc(cl, "CheckpointList", "Add"), "w.Handle(ll.LatestSeqNum)"),
+		"CheckpointList.Add: w.Handle(ll.LatestSeqNum)")
+	ro2 := c08FnSrc(cl, "CheckpointList", "RetainOnly")
+	c08Observed(fc, "c08RetainKeepsNewer", strings.Contains(ro2, "if idsSet.Has(cp.ID) || cp.ID > newestRetainedID {") &&
+		strings.Contains(ro2, "newestRetainedID = max(newestRetainedID, id)"),
+		"RetainOnly: keep idsSet.Has(cp.ID) || cp.ID > newestRetainedID")
 
 	tw := parseFile("dkv/sst/table_writer.go")
-	we := ""
-	if fn := findFunc(tw, "", "writeEntry"); fn != nil {
-		we = c08Src(fn)
-	}
-	fc.set("c08EndSeqIsMax", c08Bool(strings.Contains(we, "t.endSeqNum = max(t.endSeqNum, entry.SeqNum())")), true, "")
+	c08Observed(fc, "c08EndSeqIsMax", strings.Contains(c08FnSrc(tw, "", "writeEntry"), "t.endSeqNum = max(t.endSeqNum, entry.SeqNum())"),
+		"writeEntry: t.endSeqNum = max(t.endSeqNum, entry.SeqNum())")
 
 	ww := parseFile("dkv/wal/writer.go")
-	ro := ""
-	if fn := findFunc(ww, "Writer", "Rotate"); fn != nil {
-		ro = c08Src(fn)
-	}
-	fc.set("c08RotateKeepsMarks", c08Bool(strings.Contains(ro, "&bufferSegment{buf: b.buf, latestSeqNum: b.latestSeqNum}") &&
+	ro := c08FnSrc(ww, "Writer", "Rotate")
+	c08Observed(fc, "c08RotateKeepsMarks", strings.Contains(ro, "&bufferSegment{buf: b.buf, latestSeqNum: b.latestSeqNum}") &&
 		strings.Contains(ro, "&bufferSegment{buf: w.activeBuffer.buf, latestSeqNum: w.latestSeqNum}") &&
-		strings.Contains(ro, "NewWriter(fs, w.id+1, w.maxSize)")), true, "")
+		strings.Contains(ro, "NewWriter(fs, w.id+1, w.maxSize)"),
+		"wal.Writer.Rotate: carried segments keep latestSeqNum; next id = w.id+1")
 }
